@@ -101,9 +101,10 @@ PNAMES = ["a", "b", "c", "num"]
 class World:
     """Real objects + recording."""
 
-    def __init__(self, specs, with_event=False, pnames=None):
+    def __init__(self, specs, with_event=False, pnames=None, shared_c=False):
         self.pnames = list(pnames or PNAMES)
-        ns = {"a": param.Parameter(default=0), "b": param.Parameter(default=0), "c": param.Parameter(default=0),
+        ns = {"a": param.Parameter(default=0), "b": param.Parameter(default=0),
+              "c": param.Parameter(default=0, per_instance=False) if shared_c else param.Parameter(default=0),
               "num": param.Number(default=1, bounds=(0, 10), doc="d0")}
         if with_event:
             ns["ev"] = param.Event()
@@ -205,4 +206,10 @@ class FaultKeyError(Fault, KeyError):
     pass
 
 
-FAULT_CLASSES = {"Fault": Fault, "ValueError": FaultValueError, "TypeError": FaultTypeError, "KeyError": FaultKeyError}
+class FaultInterrupt(BaseException):
+    """a failure that is not an Exception (the kind KeyboardInterrupt and SystemExit are)"""
+
+
+FAULTS = (Fault, FaultInterrupt)
+FAULT_CLASSES = {"Fault": Fault, "ValueError": FaultValueError, "TypeError": FaultTypeError, "KeyError": FaultKeyError,
+                 "BaseException": FaultInterrupt}
